@@ -108,6 +108,25 @@ Theorem C20_order_by_id_calls : forall (A : Type) (base : Z) (xs : list A) (done
 Proof. exact @order_by_id_calls. Qed.
 Print Assumptions C20_order_by_id_calls.
 
+(* calls that fail: with close() after a failed call (the code of /repo) the evaluator holds no job of an earlier call
+   when the next call starts, so in ANY sequence of calls - failed or not, any completion orders - every call that does
+   not fail returns its own members' outputs in member order *)
+Theorem C20_calls_after_failure : forall (A : Type) (cs : list (callin A)) (st : evst A),
+  ev_left st = [] -> calls_wf true st cs ->
+  run_calls true st cs = map (fun c => if c_failed c then Raised else Returned (c_xs c)) cs.
+Proof. exact @run_calls_clean. Qed.
+Print Assumptions C20_calls_after_failure.
+
+(* raising from inside the gather loop without close(): the retry returns outputs of the failed call *)
+Theorem C20_no_close_refuted :
+  (let c1 := mkCall [10; 11; 12] true 1 [(0, 10); (1, 11); (2, 12)] in
+   let c2 := mkCall [20; 21; 22] false 0 [(1, 11); (2, 12); (3, 20); (4, 21); (5, 22)] in
+   calls_wf false (mkEv 0 []) [c1; c2]
+   /\ run_calls false (mkEv 0 []) [c1; c2] = [Raised; Returned [11; 12; 20]]
+   /\ run_calls true (mkEv 0 []) [c1; mkCall [20; 21; 22] false 0 [(5, 22); (3, 20); (4, 21)]] = [Raised; Returned [20; 21; 22]])%Z.
+Proof. exact leftovers_witness. Qed.
+Print Assumptions C20_no_close_refuted.
+
 (* the ids must be compared as INTEGERS: with the decimal strings of the job numbers 9, 10, 11 (4th call of a 3-member
    ensemble, or any ensemble of more than 10 members) the same sort returns the members in the order 1, 2, 0 *)
 Theorem C20_string_ids_refuted :
